@@ -24,8 +24,6 @@ M = [
  ("C10_seconds_61", "gameboy/memory/rtc.go", "if r.s == 60 {", "if r.s == 61 {", ["C10"]),
  ("C10_tick_period", "gameboy/memory/rtc.go", "if r.ticks == 1048576 {", "if r.ticks == 1048575 {", ["C10"]),
  ("C10_latch_ignores_low", "gameboy/memory/rtc.go", "\tif r.low {\n\t\tr.ls = r.s", "\tif true {\n\t\tr.ls = r.s", ["C10"]),
- ("C12_masks_permuted", "gameboy/timer/timer.go", "\tuint16(1) << 3,\n\tuint16(1) << 5,", "\tuint16(1) << 5,\n\tuint16(1) << 3,", ["C12"]),
- ("C12_reload_ignores_cancel", "gameboy/timer/timer.go", "\t\tif !t.timaWrite {\n\t\t\tt.tima = t.tma\n\t\t}", "\t\tt.tima = t.tma", ["C12"]),
  ("C22_down_bits_swapped", "gameboy/controller/controller.go", "\t\t\tc.directionInput &^= 0x8\n\t\t\tc.directionInput |= 0x4 // Unpress up", "\t\t\tc.directionInput &^= 0x4\n\t\t\tc.directionInput |= 0x8 // Unpress up", ["C22"]),
  ("C23_sc_also_writes", "gameboy/serial/serial.go", "func (s *Serial) WriteSC(value uint8) {", "func (s *Serial) WriteSC(value uint8) {\n\tif s.writer != nil {\n\t\ts.writer.Write([]byte{value})\n\t}", ["C23"]),
  ("C25_shared_param_cache", "gameboy/cpu/cpu.go", "func (cpu *CPU) readParamA() {\n\tcpu.u8a = cpu.mapper.Read(cpu.pc)", "var lastParam uint8\n\nfunc (cpu *CPU) readParamA() {\n\tcpu.u8a = cpu.mapper.Read(cpu.pc)\n\tlastParam = cpu.u8a", ["C25"]),
